@@ -100,6 +100,7 @@ func report(w *World, cfg runConfig, units []*UnitResult, obls []*Obligation, bo
 	violations := 0
 	var knownLines []string
 	var coverUndecided []string
+	var knownObls []string
 	var samples []map[string]interface{}
 	var slow []string
 	for _, ob := range obls {
@@ -160,6 +161,7 @@ func report(w *World, cfg runConfig, units []*UnitResult, obls []*Obligation, bo
 				knownLines = append(knownLines, line)
 				fmt.Println(line)
 			}
+			knownObls = append(knownObls, ob.Name+" ("+ob.Verdict+")")
 			continue
 		}
 		violations++
@@ -209,6 +211,9 @@ func report(w *World, cfg runConfig, units []*UnitResult, obls []*Obligation, bo
 	}
 	fmt.Printf("%s: %d/%d obligations discharged, %d/%d covers satisfiable, %d known findings; load %.1fs vcgen %.1fs smt-text %.1fs wall %.1fs\n",
 		cfg.prop, ok, n, coversOK, covers, len(knownLines), loadSecs, genSecs, genSeconds, wall)
+	if os.Getenv("GOVC_DEBUG") != "" {
+		fmt.Printf("smt-text breakdown: hypothesis selection %.1fs, instantiation and printing %.1fs\n", tRel, tRest)
+	}
 	if n == 0 && exit == 0 {
 		fmt.Println("CHECK-ERROR: no obligations generated for", cfg.prop)
 		exit = 2
@@ -252,7 +257,8 @@ func report(w *World, cfg runConfig, units []*UnitResult, obls []*Obligation, bo
 		}
 	}
 	cov := map[string]interface{}{
-		"obligations":              n,
+		"obligations":              n - len(knownObls), // obligations claimed: those of listed known findings are reported separately
+		"known_finding_obligations": knownObls,
 		"discharged":               ok,
 		"checker_cmd":              "bin/check " + cfg.prop + " --tier " + cfg.tier + "  (govc: go/ssa -> weakest-precondition style VCs -> z3-new | z3 | cvc5)",
 		"trusted_base":             []string{"x/tools go/ssa v0.29.0", "govc VC generator (/verif/govc)", "z3 4.8.12", "z3 5.1.0", "cvc5 1.0.3", "/verif/spec/*.vspec axioms"},
@@ -290,6 +296,8 @@ func round3(f float64) float64 {
 	return v
 }
 
+var replaysDone int
+
 type replayInfo struct {
 	path      string
 	confirmed bool
@@ -303,7 +311,10 @@ func writeReplay(w *World, cfg runConfig, dir string, ob *Obligation) replayInfo
 	fmt.Fprintf(&sb, "property: %s\nobligation: %s\nkind: %s\nfunction: %s\nat: %s\nwhat: %s\nclause: %s\nverdict: %s (solver %s, %.2fs)\nsmt query: %s\n",
 		cfg.prop, ob.Name, ob.Kind, ob.Func, ob.Pos, ob.Desc, ob.Clause, ob.Verdict, ob.Solver, ob.Seconds, ob.File)
 	confirmed := false
-	if ob.Verdict == "sat" {
+	if ob.Verdict == "sat" && replaysDone >= 4 {
+		sb.WriteString("\n--- replay on the real code ---\nno replay: the replay budget of this run (4 obligations) is used up; run the check with --only on this function to replay this one\n")
+	} else if ob.Verdict == "sat" {
+		replaysDone++
 		rr := tryReplay(w, cfg, ob)
 		sb.WriteString("\n--- replay on the real code ---\n")
 		sb.WriteString(rr.log)
